@@ -5,12 +5,8 @@ entry (container, item list) to the decoder appends exactly that entry to the cu
 container, up to the chain of frames that the entry leaves open (`ClosesTo`).
 -/
 import AsyncFix.Lemmas.CodecGroupsLocal
+import AsyncFix.Lemmas.CodecGroupsWf
 namespace AsyncFix.Model.Codec
-
-def inMs (ms? : Option (List Tag)) (t : Tag) : Bool :=
-  match ms? with
-  | some ms => ms.contains t
-  | none => true
 
 /-- the enclosing group's member list (`none` at message level) agrees with the decoder state -/
 def fits (ms? : Option (List Tag)) (s : DS) : Prop :=
@@ -31,79 +27,6 @@ theorem coreAll_closesTo {tbl : Tbl} {oms : List (List Tag)} {s s'' : DS} {t : T
     {tl : List Fld} (h : ClosesTo oms s s'') (hn : notOpen t oms = true) :
     coreAll tbl s (⟨t, x⟩ :: tl) = coreAll tbl s'' (⟨t, x⟩ :: tl) := by
   simp only [coreAll, stepCore_closesTo x h hn]
-
-theorem wfItem_wfNodes {tbl : Tbl} {ms : List Tag} {it : List Node} (h : wfItem tbl ms it = true) :
-    wfNodes tbl (some ms) [] it = true := by
-  cases it with
-  | nil => unfold wfItem at h; cases h
-  | cons n rest =>
-    cases n with
-    | leaf t v => unfold wfItem at h; exact h
-    | err t => unfold wfItem at h; cases h
-    | group g items => unfold wfItem at h; cases h
-
-theorem wfNodes_head {tbl : Tbl} {ms? : Option (List Tag)} {seen : List Tag} {n : Node}
-    {rest : List Node} (h : wfNodes tbl ms? seen (n :: rest) = true) :
-    wfNode tbl n = true ∧ seen.contains n.tag = false ∧ inMs ms? n.tag = true := by
-  cases rest with
-  | nil =>
-    unfold wfNodes at h
-    cases ms? <;> simp only [Bool.and_eq_true, Bool.not_eq_true', inMs] at h ⊢ <;>
-      exact ⟨h.1.1, h.1.2, h.2⟩
-  | cons m rest' =>
-    unfold wfNodes at h
-    cases ms? <;> simp only [Bool.and_eq_true, Bool.not_eq_true', inMs] at h ⊢ <;>
-      exact ⟨h.1.1.1.1, h.1.1.1.2, h.1.1.2⟩
-
-theorem wfNodes_cons2 {tbl : Tbl} {ms? : Option (List Tag)} {seen : List Tag} {n m : Node}
-    {rest : List Node} (h : wfNodes tbl ms? seen (n :: m :: rest) = true) :
-    notOpen m.tag (openMembersNode tbl n) = true ∧
-      wfNodes tbl ms? (n.tag :: seen) (m :: rest) = true := by
-  unfold wfNodes at h
-  simp only [Bool.and_eq_true] at h
-  exact ⟨h.1.2, h.2⟩
-
-theorem wfItem_leaf_head {tbl : Tbl} {ms : List Tag} {t v : Bytes} {rest : List Node}
-    (h : wfItem tbl ms (.leaf t v :: rest) = true) :
-    ms.contains t = true ∧ tbl.members? t = none := by
-  have h1 := wfNodes_head (wfItem_wfNodes h)
-  simp only [wfNode, Node.tag, Bool.and_eq_true, Option.isNone_iff_eq_none, inMs] at h1
-  exact ⟨h1.2.2, h1.1.2⟩
-
-theorem wfItems_head {tbl : Tbl} {ms : List Tag} {it : List Node} {rest : List (List Node)}
-    (h : wfItems tbl ms (it :: rest) = true) : wfItem tbl ms it = true := by
-  cases rest with
-  | nil => unfold wfItems at h; exact h
-  | cons r rs =>
-    unfold wfItems at h
-    simp only [Bool.and_eq_true] at h
-    exact h.1.1
-
-theorem wfItems_cons2 {tbl : Tbl} {ms : List Tag} {it nxt : List Node} {rest : List (List Node)}
-    (h : wfItems tbl ms (it :: nxt :: rest) = true) :
-    wfItems tbl ms (nxt :: rest) = true ∧
-      ∃ t v nrest, nxt = .leaf t v :: nrest ∧ (contTags it).contains t = true ∧
-        notOpen t (openMembersCont tbl it) = true := by
-  unfold wfItems at h
-  simp only [Bool.and_eq_true] at h
-  refine ⟨h.2, ?_⟩
-  have h2 := h.1.2
-  cases nxt with
-  | nil => cases h2
-  | cons n nrest =>
-    cases n with
-    | leaf t v =>
-      simp only [Bool.and_eq_true] at h2
-      exact ⟨t, v, nrest, rfl, h2.1, h2.2⟩
-    | err t => cases h2
-    | group g items => cases h2
-
-theorem has_of_contTags {it : List Node} {t : Tag} (h : (contTags it).contains t = true) :
-    Cont.has it t = true := by
-  simp only [contTags, List.contains_eq_mem, List.mem_map, decide_eq_true_eq] at h
-  obtain ⟨n, hn, ht⟩ := h
-  simp only [Cont.has, List.any_eq_true]
-  exact ⟨n, hn, by simp [ht]⟩
 
 mutual
 theorem node_ok (tbl : Tbl) : (n : Node) → (s : DS) → wfNode tbl n = true →
